@@ -60,9 +60,9 @@ CLAIMED = {
          "Compile-time list of the types implementing Serialize+Deserialize under feature serde (Zipf, Zeta, Dirichlet do not), parameter sets for every internal enum variant (Gamma Large/One/Small, Beta BB/BC x switched, Binomial Binv/Btpe/Poisson/Constant x flipped, Poisson Knuth/Rejection, ...), weighted indices of several lengths incl. float trees after update histories.",
          "Values holding a non-finite float are not covered (JSON cannot carry infinities)."),
  "C05": ("fault_enumeration", "deviation-bounded exhaustive enumeration of RNG answers with a per-call word cap and wall-clock watchdog on the real samplers",
-         "D", "DESIGN.md §3.2, §5-C05",
-         "Same enumeration as C03; the oracle is the number of RNG words requested by one call (< 1e5) and a 2 s per-call watchdog (constructors included). Catches parameter/word combinations that loop forever or whose acceptance rate collapses.",
-         "A hung thread cannot be cancelled: it is reported and abandoned, the process exits at the end. Mean consumption per family is reported from base streams here; the exact expectation is computed by engine T when that engine serves this property."),
+         "D+T", "DESIGN.md §3.2, §5-C05",
+         "Same enumeration as C03 (plus the extremes of every accepted parameter range); the oracle is the number of RNG words requested by one call (< 1e5) and a 2 s per-call watchdog (constructors included). Part (a): the exact expected number of words per output of every law case under a coarse finite alphabet, computed by engine T with loop closure, must stay below 32 (observed maximum 5.0): a parameter region whose acceptance rate collapses shows 10^2 - 10^6.",
+         "A hung thread cannot be cancelled: it is reported and abandoned, the process exits at the end. Cases whose loops engine T cannot close at the coarse resolution (residual > 0.5) are only covered by the per-call cap."),
 }
 PLANNED = {
 }
